@@ -579,11 +579,13 @@ def replay(data):
 # --- translated small functions (tools/gens/gen_pure.py): Props/T_insns.v proves the regenerated Python functions
 # equal to the hand models this property's theorems are about; explore_t cross-checks the translator itself
 import t_check  # noqa: E402
-PROP_FILES = PROP_FILES + ["Props/T_insns.v"]
-RUN_FILES = RUN_FILES + ["Run/TRunInsns.v"]
+import t_check2  # noqa: E402  (tools/gens/gen_pure2.py: get_opcode + indexes_of_char regenerated from the AST, Props/T_insns2.v)
+PROP_FILES = PROP_FILES + ["Props/T_insns.v", "Props/T_insns2.v"]
+RUN_FILES = RUN_FILES + ["Run/TRunInsns.v", "Run/TRun2Insns.v"]
 _explore_without_t = explore
 
 
 def explore(rep, br, tier, seed):
     _explore_without_t(rep, br, tier, seed)
     t_check.explore_t(rep, tier, seed, pid=ID, only=["insns"])
+    t_check2.explore_t2(rep, tier, seed, pid=ID)
